@@ -70,8 +70,15 @@ type C15Session struct {
 	OddAuthor  bool   `json:"odd_author"`    // author.name / committer.name with characters stock git strips from identities
 	// LongLived: "repo" or "cache" — the ll-* actions go through ONE repository handle (a GoGitRepo, or a RepoCache
 	// on top of one) that stays open while the foreign actor (env-*, cli-*, peer-work) works on the same repository
-	LongLived string      `json:"long_lived,omitempty"`
-	Actions   []C15Action `json:"actions"`
+	LongLived string `json:"long_lived,omitempty"`
+	// IdentCfg: where the host configuration offers material for the author/committer line of a commit (local, global,
+	// included file, GIT_AUTHOR_*/GIT_COMMITTER_* environment of the git-bug processes) and with what values;
+	// applied at the end of the setup (c15_hostvariants.go). IdentGroup names the one source that holds the hostile values.
+	IdentCfg   []C15Cfg `json:"ident_cfg,omitempty"`
+	IdentGroup string   `json:"ident_group,omitempty"`
+	// Layout: from where in which kind of host repository git-bug is started ("" = the root of an ordinary work tree)
+	Layout  string      `json:"layout,omitempty"`
+	Actions []C15Action `json:"actions"`
 }
 
 // C15Result is what the monitor observed in one session.
@@ -251,15 +258,26 @@ func c15Sessions(r *mon.Run) []C15Session {
 		s.Actions = append(s.Actions, C15Action{Kind: "cli-pull", Remote: "origin"}, C15Action{Kind: "cli-push", Remote: "origin"})
 		out[i] = s
 	}
-	return append(out, c15LongLivedSessions(r)...)
+	out = append(out, c15LongLivedSessions(r)...)
+	return append(out, c15HostVariantSessions(r)...)
 }
 
 // ---- session state ----------------------------------------------------------------
 
 type c15Sess struct {
-	sc       C15Session
-	dir      string
-	host     string
+	sc   C15Session
+	dir  string
+	host string // the work tree the setup decorates (branches, stash, dirty files, configuration)
+	// root is the directory tree the manifest covers, cwd the directory git-bug (and the observer's stock git) is
+	// started from, gitDir the git directory stock git uses from there (rev-parse --git-common-dir), mainDir the
+	// directory `git worktree remove` is run from. Ordinary sessions: root = cwd = mainDir = host, gitDir = host/.git.
+	root, cwd, gitDir, mainDir string
+	otherGit                   map[string]string // manifest-relative prefix of another git directory in root -> what it is
+	identEnv                   []string          // extra environment of the git-bug processes (IdentCfg, scope env)
+	refused                    bool              // git-bug does not open a repository from cwd (layout not supported)
+	crTwin                     map[string]bool   // "key=value" of a config entry that held carriage returns, without them
+	misplaced                  bool              // git-bug reported data stock git does not list from the same directory
+
 	origin   string
 	upstream string
 	peer     string
@@ -294,9 +312,14 @@ func (s *c15Sess) seen(set, m string) {
 	}
 }
 func (s *c15Sess) find(key, what string) {
-	if s.sc.OddAuthor && s.inValidity && c15IdentLine.MatchString(what) {
-		// the same failure in a session with the identity-hostile author configuration is its own class
-		key += "[odd-author-config]"
+	if s.inValidity && c15IdentLine.MatchString(what) {
+		// the same failure in a session with an identity-hostile host configuration is its own class
+		switch {
+		case s.sc.OddAuthor || s.sc.IdentGroup == "local-author-committer":
+			key += "[odd-author-config]"
+		case s.sc.IdentGroup != "":
+			key += "[hostile-ident-config:" + s.sc.IdentGroup + "]"
+		}
 	}
 	for _, p := range []string{"fsck-error:", "ref-to-missing-object:", "broken-ref-written:"} {
 		if strings.HasPrefix(key, p) {
@@ -317,6 +340,9 @@ func (s *c15Sess) run(dir string, bin string, args ...string) (stdout, stderr st
 	cmd := exec.CommandContext(ctx, bin, args...)
 	cmd.Dir = dir
 	cmd.Env = s.env
+	if bin == s.bin && len(s.identEnv) > 0 {
+		cmd.Env = append(append([]string{}, s.env...), s.identEnv...)
+	}
 	var o, e bytes.Buffer
 	cmd.Stdout, cmd.Stderr = &o, &e
 	err = cmd.Run()
@@ -370,8 +396,13 @@ func (s *c15Sess) setup() {
 	}
 	g(s.dir, "init", "-q", "--bare", "-b", "main", s.origin)
 	g(s.dir, "init", "-q", "--bare", "-b", "main", s.upstream)
-	g(s.host, "init", "-q", "-b", "main", ".")
+	if c15LayoutFamily(s.sc.Layout) == "separate-git-dir" {
+		g(s.host, "init", "-q", "-b", "main", "--separate-git-dir", filepath.Join(s.root, "sep.git"), ".")
+	} else {
+		g(s.host, "init", "-q", "-b", "main", ".")
+	}
 	h := s.host
+	hostGitDir := strings.TrimSpace(g(h, "rev-parse", "--absolute-git-dir"))
 	g(h, "config", "user.name", "Host User")
 	g(h, "config", "user.email", "host@example.com")
 	g(h, "config", "core.autocrlf", "false")
@@ -383,10 +414,11 @@ func (s *c15Sess) setup() {
 	g(h, "config", "myapp.winpath", "C:\\dir\\file")
 	g(h, "config", "myapp.spaced", "  leading and trailing  ")
 	g(h, "config", "myApp.CamelKey", "Value;semi")
+	g(h, "config", "myapp.cr", "carriage\rreturn, also at the end\r")
 	g(h, "config", "url.https://example.invalid/.insteadOf", "ex:")
 	g(h, "config", "branch.main.description", "line one\nline two")
 	g(h, "config", "include.path", "extra.cfg")
-	if err := os.WriteFile(filepath.Join(h, ".git", "extra.cfg"), []byte("[extra]\n\tkey = value\n"), 0o644); err != nil {
+	if err := os.WriteFile(filepath.Join(hostGitDir, "extra.cfg"), []byte("[extra]\n\tkey = value\n"), 0o644); err != nil {
 		panic(c15Harness{err})
 	}
 	if s.sc.OddAuthor {
@@ -454,6 +486,9 @@ func (s *c15Sess) setup() {
 	if s.sc.PackedRefs {
 		g(h, "pack-refs", "--all")
 	}
+	// everything stock git has to commit is done: the layout git-bug is started from, then the identity configuration
+	s.buildLayout()
+	s.applyIdentCfg()
 }
 
 // ---- snapshot + allow-list ----------------------------------------------------------
@@ -529,14 +564,14 @@ func (s *c15Sess) refsOf(dir string) (map[string]string, []string) {
 
 func (s *c15Sess) snapshot() *c15Snap {
 	sn := &c15Snap{Files: map[string]string{}, Remotes: map[string]map[string]string{}}
-	err := filepath.WalkDir(s.host, func(path string, d fs.DirEntry, err error) error {
+	err := filepath.WalkDir(s.root, func(path string, d fs.DirEntry, err error) error {
 		if err != nil {
 			return nil // a file may vanish (tmp files): the next snapshot decides
 		}
 		if d.IsDir() {
 			return nil
 		}
-		rel, _ := filepath.Rel(s.host, path)
+		rel := s.relOf(path)
 		info, err := d.Info()
 		if err != nil {
 			return nil
@@ -561,13 +596,18 @@ func (s *c15Sess) snapshot() *c15Snap {
 		panic(c15Harness{err})
 	}
 	s.count("files_hashed", len(sn.Files))
-	sn.Refs, sn.Broken = s.refsOf(s.host)
-	sym, _, _, _ := s.run(s.host, "/usr/bin/git", "symbolic-ref", "-q", "HEAD")
-	rev, _, _, _ := s.run(s.host, "/usr/bin/git", "rev-parse", "HEAD")
+	sn.Refs, sn.Broken = s.refsOf(s.cwd)
+	sym, _, _, _ := s.run(s.cwd, "/usr/bin/git", "symbolic-ref", "-q", "HEAD")
+	rev, _, _, _ := s.run(s.cwd, "/usr/bin/git", "rev-parse", "HEAD")
 	sn.Head = strings.TrimSpace(sym) + " " + strings.TrimSpace(rev)
-	sn.Status = s.mustGit(s.host, "status", "--porcelain=v2", "--branch", "--untracked-files=all")
-	sn.Stash = s.mustGit(s.host, "stash", "list")
-	cfg, _, code, _ := s.run(s.host, "/usr/bin/git", "config", "--local", "--list", "-z")
+	if s.sc.Layout == "bare" {
+		// no work tree, no index, no stash (the manifest still covers every file of the directory)
+		sn.Status, sn.Stash = "n/a (bare repository)", "n/a (bare repository)"
+	} else {
+		sn.Status = s.mustGit(s.cwd, "status", "--porcelain=v2", "--branch", "--untracked-files=all")
+		sn.Stash = s.mustGit(s.cwd, "stash", "list")
+	}
+	cfg, _, code, _ := s.run(s.cwd, "/usr/bin/git", "config", "--local", "--list", "-z")
 	sn.ConfigOK = code == 0
 	for _, kv := range strings.Split(cfg, "\x00") {
 		if kv == "" {
@@ -578,7 +618,7 @@ func (s *c15Sess) snapshot() *c15Snap {
 		sn.Config = append(sn.Config, kv)
 	}
 	sort.Strings(sn.Config)
-	if data, err := os.ReadFile(filepath.Join(s.host, ".git", "packed-refs")); err == nil {
+	if data, err := os.ReadFile(filepath.Join(s.gitDir, "packed-refs")); err == nil {
 		foreign := false
 		for _, l := range strings.Split(string(data), "\n") {
 			switch {
@@ -704,7 +744,7 @@ func (s *c15Sess) compare(act string, a, b *c15Snap) {
 		if filepath.ToSlash(p) == ".git/packed-refs" {
 			s.count("packed_refs_rewrites_seen", 1)
 		}
-		cls := fileClass(p)
+		cls := s.fileClass(p)
 		if cls == "" {
 			s.seen("allowed_paths_touched", allowedBucket(p))
 			continue
@@ -723,7 +763,7 @@ func (s *c15Sess) compare(act string, a, b *c15Snap) {
 			continue
 		}
 		s.count("file_changes_seen", 1)
-		cls := fileClass(p)
+		cls := s.fileClass(p)
 		if cls == "" {
 			s.seen("allowed_paths_touched", allowedBucket(p))
 			continue
@@ -766,7 +806,7 @@ func (s *c15Sess) compare(act string, a, b *c15Snap) {
 			was = was || x == name
 		}
 		if !was {
-			content, _ := os.ReadFile(filepath.Join(s.host, ".git", filepath.FromSlash(name)))
+			content, _ := os.ReadFile(filepath.Join(s.gitDir, filepath.FromSlash(name)))
 			cls := refClass(name)
 			if c15AllowedRef.MatchString(name) {
 				cls = "git-bug-namespace"
@@ -799,6 +839,12 @@ func (s *c15Sess) compare(act string, a, b *c15Snap) {
 		s.find("config-unreadable-by-stock-git", "git config --local --list fails"+where)
 	}
 	rem, add := multisetDiff(a.Config, b.Config)
+	for _, kv := range a.Config {
+		if strings.Contains(kv, "\r") {
+			// the same entry without its carriage returns belongs to the class of the entry with them (configFindingKey)
+			s.crTwin[strings.ReplaceAll(kv, "\r", "")] = true
+		}
+	}
 	if len(rem)+len(add) > 0 {
 		s.count("config_changes_seen", len(rem)+len(add))
 	}
@@ -896,7 +942,7 @@ func (s *c15Sess) bugIds(sn *c15Snap) []string {
 }
 
 func (s *c15Sess) cli(args ...string) string {
-	_, errOut, code, err := s.run(s.host, s.bin, args...)
+	_, errOut, code, err := s.run(s.cwd, s.bin, args...)
 	if err != nil {
 		s.res.Inconclusive = err.Error()
 		return "watchdog"
@@ -1074,7 +1120,7 @@ func (s *c15Sess) do(a C15Action, sn *c15Snap) string {
 	}
 	switch a.Kind {
 	case "lib-edit", "lib-rm", "lib-idmut", "lib-pull", "lib-push", "lib-id-rm":
-		rep, err := s.openLib(s.host)
+		rep, err := s.openLib(s.cwd)
 		if err != nil {
 			return s.libErr(a.Kind+"/open", err)
 		}
@@ -1133,7 +1179,7 @@ func (s *c15Sess) do(a C15Action, sn *c15Snap) string {
 			return s.libErr(a.Kind, rep.Push(a.Remote))
 		}
 	case "lib-cache":
-		rep, err := s.openLib(s.host)
+		rep, err := s.openLib(s.cwd)
 		if err != nil {
 			return s.libErr(a.Kind+"/open", err)
 		}
@@ -1328,12 +1374,12 @@ func (s *c15Sess) validity() {
 	if end := s.snapshot(); len(end.Broken) > 0 || c15AnyMissing(end.Refs) {
 		hostBroken = true
 		s.count("sessions_ending_with_broken_refs", 1)
-		_, e1, c1, _ := s.run(s.host, "/usr/bin/git", "gc", "-q", "--prune=now")
+		_, e1, c1, _ := s.run(s.cwd, "/usr/bin/git", "gc", "-q", "--prune=now")
 		s.seen("impact_of_broken_ref", fmt.Sprintf("git gc --prune=now: exit %d: %s", c1, c15ErrClass(strings.SplitN(strings.TrimSpace(e1), "\n", 2)[0])))
-		_, e2, c2, _ := s.run(s.host, "/usr/bin/git", "fsck", "--strict", "--full")
+		_, e2, c2, _ := s.run(s.cwd, "/usr/bin/git", "fsck", "--strict", "--full")
 		s.seen("impact_of_broken_ref", fmt.Sprintf("git fsck --strict --full: exit %d: %s", c2, fsckClass(strings.SplitN(strings.TrimSpace(e2), "\n", 2)[0])))
 	} else {
-		s.fsck("host", s.host)
+		s.fsck("host", s.cwd)
 	}
 	s.fsck("origin", s.origin)
 	s.fsck("upstream", s.upstream)
@@ -1396,8 +1442,14 @@ func (s *c15Sess) validity() {
 	if hostBroken {
 		return
 	}
+	if s.refused {
+		// git-bug does not work from this directory at all (recorded): there is nothing of its own to re-read; what its
+		// refused commands did to the repository has been judged action by action
+		return
+	}
+	s.identityLinesWritten()
 	// gc on the host itself
-	before, err := c15ReadAll(s.host, true)
+	before, err := c15ReadAll(s.cwd, true)
 	if err != nil {
 		s.find("host-unreadable:open", "git-bug cannot open the host repository at the end of the session: "+err.Error())
 		return
@@ -1416,8 +1468,8 @@ func (s *c15Sess) validity() {
 	s.count("bugs_on_host_at_end", len(before.Ops))
 	s.count("attachments_referenced_at_end", nFiles)
 	snBefore := s.snapshot()
-	if stock("gc-host", s.host, "gc", "-q", "--prune=now") {
-		after, err := c15ReadAll(s.host, true)
+	if stock("gc-host", s.cwd, "gc", "-q", "--prune=now") {
+		after, err := c15ReadAll(s.cwd, true)
 		switch {
 		case err != nil:
 			s.find("gc-lost-data:open", "after git gc --prune=now git-bug cannot open the host: "+err.Error())
@@ -1428,7 +1480,7 @@ func (s *c15Sess) validity() {
 		default:
 			s.count("bugs_reread_after_gc", len(after.Ops))
 		}
-		s.fsck("host after gc", s.host)
+		s.fsck("host after gc", s.cwd)
 		// the CLI still works on the gc'ed repository and leaves the host alone
 		sn1 := s.snapshot()
 		if out := s.cli("bug"); out != "ok" && cliWorkedBeforeGc {
@@ -1451,6 +1503,7 @@ func runC15Session(sc C15Session) (res C15Result) {
 	}
 	s := &c15Sess{sc: sc, dir: dir, host: filepath.Join(dir, "host"), origin: filepath.Join(dir, "origin.git"), upstream: filepath.Join(dir, "upstream.git"),
 		peer: filepath.Join(dir, "peer"), home: filepath.Join(dir, "home"), bin: filepath.Join(os.Getenv("VERIF_BIN"), "git-bug"), res: &res, w: &world.World{}}
+	s.placeLayout()
 	for _, kv := range os.Environ() {
 		if strings.HasPrefix(kv, "HOME=") || strings.HasPrefix(kv, "XDG_CONFIG_HOME=") || strings.HasPrefix(kv, "GIT_") || strings.HasPrefix(kv, "VERIF_HOOK") {
 			continue
@@ -1490,6 +1543,7 @@ func runC15Session(sc C15Session) (res C15Result) {
 		return
 	}
 	sn = sn2
+	sn = s.probeLayout(sn)
 	first := c15ForeignOf(sn)
 	s.expect, s.foreignTouchedCfg, s.foreignTouchedRef = &first, map[string]bool{}, map[string]bool{}
 	kinds := map[string]bool{}
@@ -1537,7 +1591,13 @@ func runC15Session(sc C15Session) (res C15Result) {
 	}
 	s.count("bugs_max", len(s.bugIds(sn)))
 	s.checkExpectedForeign(sn)
+	if sc.Layout != "" && !s.refused && res.Inconclusive == "" {
+		s.dataWhereStockGitLooks()
+	}
 	s.validity()
+	if sc.Layout != "" && !s.refused && !s.damaged && res.Inconclusive == "" {
+		s.layoutEpilogue()
+	}
 	var ks []string
 	for k := range kinds {
 		ks = append(ks, k)
@@ -1546,6 +1606,12 @@ func runC15Session(sc C15Session) (res C15Result) {
 	res.Shape = fmt.Sprintf("packed=%v detached=%v odd-author=%v actions=%d kinds=%s", sc.PackedRefs, sc.Detached, sc.OddAuthor, len(sc.Actions)/5*5, mon.Hash(ks...))
 	if sc.LongLived != "" {
 		res.Shape = "long-lived=" + sc.LongLived + " " + res.Shape
+	}
+	if sc.IdentGroup != "" {
+		res.Shape = "ident=" + c15IdentShape(sc) + " " + res.Shape
+	}
+	if sc.Layout != "" {
+		res.Shape = fmt.Sprintf("layout=%s refused=%v %s", sc.Layout, s.refused, res.Shape)
 	}
 	return
 }
@@ -1617,6 +1683,16 @@ func runC15(tier, replay string) int {
 				res.Counters["ll_restore_after_foreign_prune"]+res.Counters["ll_bug_written_after_remove_all_and_foreign_prune"] >= 1
 			r.Count("long_lived_sessions", 1)
 		}
+		if sc.IdentGroup != "" {
+			// the configuration was in place and git-bug wrote commits under it
+			nontrivial = nontrivial && res.Counters["ident_cfg_entries_applied"] >= 1 && res.Counters["git_bug_commits_inspected"] >= 5
+			r.Count("ident_config_sessions", 1)
+		}
+		if sc.Layout != "" {
+			// a layout git-bug refuses to open has only the frame condition of its refused commands to show
+			nontrivial = nontrivial && res.Counters["layout_sessions_refused"] == 0 && res.Counters["layout_entities_reported_by_git_bug"] >= 2
+			r.Count("layout_sessions", 1)
+		}
 		r.Case(res.Shape, nontrivial)
 		r.Count("sessions", 1)
 		for k, v := range res.Counters {
@@ -1639,7 +1715,7 @@ func runC15(tier, replay string) int {
 		}
 	}
 	r.Extra("not_driven", "bridge configuration is driven for the gitlab target only (`bridge new` against an in-process simulated GitLab, `bridge rm`, `bridge auth add-token`); github, jira and launchpad need their real APIs")
-	return r.Finish("sessions of 15..40 CLI and library actions (list = f(seed, tier)) on a stock-git host repository (3 commits on main, a feature branch, annotated+lightweight tags, a stash, staged/unstaged/untracked changes, user/core/alias/url/include/multi-valued config, remotes origin and upstream with custom fetch refspecs that are ahead of the host, refs packed in every second session, HEAD detached in every fourth, foreign refs under refs/bugsarchive, refs/identities-old, refs/heads/bugs/*, refs/tags/identities/*, identity-hostile author.name/committer.name config in every sixth); "+
+	return r.Finish("sessions of 15..40 CLI and library actions (list = f(seed, tier)) on a stock-git host repository (3 commits on main, a feature branch, annotated+lightweight tags, a stash, staged/unstaged/untracked changes, user/core/alias/url/include/multi-valued config, remotes origin and upstream with custom fetch refspecs that are ahead of the host, refs packed in every second session, HEAD detached in every fourth, foreign refs under refs/bugsarchive, refs/identities-old, refs/heads/bugs/*, refs/tags/identities/*, identity-hostile author.name/committer.name config in every sixth, a configuration value with carriage returns); "+
 		"before/after every action: manifest of every file, for-each-ref, HEAD, index, status --porcelain=v2, stash list, config multiset, refs of both remotes, allow-list on the difference; at the end stock git fsck --strict --full on 4 repositories, clone, fetch with fsckObjects, push into a receive.fsckObjects server, gc --prune=now followed by a full re-read incl. attachments; "+
 		"non-trivial = at least 15 actions, a bug present at the end and all fsck runs done; distinct = distinct (packed, odd-author, length class, set of successful action kinds). "+
 		"Plus long-lived-handle sessions (quick 6, thorough 60; c15_longlived.go): ONE repository handle (a GoGitRepo in every second session, a RepoCache on top of one in the others) stays open over 30..60 seed-determined actions through it "+
@@ -1647,8 +1723,20 @@ func runC15(tier, replay string) int {
 		"interleaved with a foreign actor on the same repository: stock git config/--unset-all on keys of 9 unrelated sections, remote add/remove, commit, branch, tag, gc --prune=now, prune --expire=now, repack -a -d, pack-refs; git-bug CLI processes (GoGitRepo sessions only: a RepoCache holds the lock); the peer pushing to origin. "+
 		"Every session contains four uninterrupted shapes at seed-determined places: own-key write / foreign config + remote add / own-key write; upload / gc / same upload attached; create / remove-all / gc or prune / create; push / gc / read-all / create / gc or repack / three peer pushes / pull. "+
 		"Same per-action snapshot oracle (foreign actions are not judged); additionally git fsck --strict --full after every action, and at the end the foreign state (config entries outside section git-bug, refs outside git-bug's namespaces, HEAD) must equal the EXPECTED foreign state that only the foreign actor's own differences have moved; "+
-		"such a session is non-trivial only if >= 8 handle actions succeeded, >= 5 foreign actions ran, an own-key write followed a foreign config change through the same handle, and a re-store after a foreign prune (or a bug written after remove-all + prune) happened",
-		r.Pick(8, 100), []string{
+		"such a session is non-trivial only if >= 8 handle actions succeeded, >= 5 foreign actions ran, an own-key write followed a foreign config change through the same handle, and a re-store after a foreign prune (or a bug written after remove-all + prune) happened. "+
+		"Plus host-variant sessions (c15_hostvariants.go; 16..29 actions: user, bugs, every edit kind with attachments, identity mutation, cache API, push/pull with origin, the peer, upstream), same per-action snapshot oracle and same end-of-session judgement by stock git: "+
+		"(a) identity configuration (quick 28 = 7 sources x 4 value pairs, thorough 7 x 9 + 3 with bytes that are not UTF-8 + 40 with every key of every source set or not at random; the list of (source, pair) does not depend on the seed): user.*/author.*/committer.* name and email in the local config (user only; author+committer; user plus a proper subset of author/committer), in the global config of the private HOME, in a file included from the local config, and GIT_AUTHOR_*/GIT_COMMITTER_*/EMAIL in the environment of the git-bug processes, with values stock git accepts and cleans for its own commits: "+
+		"angle brackets at either end or both, a complete `Name <email>` as the name, a newline inside or at the end, leading/trailing spaces, only spaces, the empty string, 4 kB, unicode incl. RTL override, tab/CR; such a session is non-trivial only if the configuration was read back as written and >= 5 commits under git-bug's refs were inspected; "+
+		"(b) start directory (quick 14 = every layout once, thorough 4 x 14): a subdirectory of the work tree; a linked worktree (`git worktree add`, absolute and relative gitdir link, its root and a subdirectory, with its own staged/unstaged/untracked changes); a repository made with `git init --separate-git-dir` (root, subdirectory); a submodule checkout whose git directory was absorbed into <superproject>/.git/modules/<path> (path `mod` and `a/mod`, root and subdirectory; the superproject has its own dirty file); a bare repository; a linked worktree of a bare repository (root, subdirectory). "+
+		"The manifest covers the directory tree that holds all of it (work trees, git directories, superproject, the bystander repository); the allow-list is applied relative to the git directory stock git uses from the start directory (git rev-parse --git-common-dir, checked by the harness); a changed file of another git directory is `write-into-other-git-dir`; "+
+		"after the actions the bugs and identities git-bug reports (library, from the start directory) must be the refs stock `git for-each-ref refs/bugs refs/identities` lists from the same directory, and after `git worktree remove --force` (run from the main repository) resp. `git submodule deinit -f` + `git submodule update --init` the same refs and the same operations must still be read; "+
+		"a layout in which neither `git-bug user` nor the library opens a repository is recorded as refused (layouts_refused), its session is trivial and only the frame condition of the refused commands is judged",
+		r.Pick(40, 215), []string{
+			"host-variant sessions: the in-process library calls of a layout session are made with the start directory as the current directory (one session per process), like the CLI processes; git-bug resolves the repository from the directory it is started in",
+			"host-variant sessions: git-bug does not read GIT_DIR / GIT_WORK_TREE / GIT_AUTHOR_* / GIT_COMMITTER_* (probe: with GIT_DIR pointing at another repository it works on the repository of the current directory); GIT_DIR/GIT_WORK_TREE are therefore not driven, the identity variables are (a change that starts to honour them is judged by fsck)",
+			"host-variant sessions: values that are not valid UTF-8 are only put into the global configuration and the environment: with such bytes in the local config every git-bug command refuses to start (go-git: illegal UTF-8 encoding) and writes nothing",
+			"host-variant sessions: the identity configuration is put in place after stock git has made its last commit of the setup (stock git refuses to commit with a name that is empty after cleaning)",
+			"a configuration entry whose value lost its carriage returns is filed under foreign-config-key-changed:carriage-return-in-value whatever its section",
 			"long-lived-handle sessions: an action through a handle that was opened before a foreign gc/repack is not required to succeed (recorded in lib_errors), only to leave the host and the git data valid",
 			"long-lived-handle sessions: a blob that was uploaded and not yet attached when the foreign actor ran gc --prune=now is not required to survive; every attaching action stores its files itself right before it commits, with no foreign action in between",
 			"long-lived-handle sessions: the foreign actor never touches section `branch` (class of the open known finding about multi-line values) and writes plain single-line values only; after prune/repack it rewrites the commit-graph as gc does (stock git alone leaves a stale commit-graph there, which fsck reports)",
